@@ -125,6 +125,10 @@ def signature(prog, root):
         if n.get("k") in ("un", "op") and n.get("op") == "-" \
                 and len(n.get("a", ())) == 1:
             sig["neg"] += 1
+        if n.get("k") in ("bin", "op") and n.get("op") in (
+                "<", "<=", ">", ">=", "==", "!=") \
+                and len(n.get("a", ())) == 2:
+            sig["cmp:" + n["op"]] += 1
     # a reciprocal counted as recip:arg is also seen by the generic '/' scan
     return sig
 
@@ -301,7 +305,8 @@ def run(loader, R, tier):
         multi += 1
         groups = {}
         for ev, (sg, where) in evs.items():
-            groups.setdefault(tuple(sorted(sg.items())), []).append(
+            core = {k: v for k, v in sg.items() if not k.startswith("cmp:")}
+            groups.setdefault(tuple(sorted(core.items())), []).append(
                 (ev, where))
         R.instance("R12.1", short(X), sample={
             "class": short(X), "evaluators": sorted(evs),
@@ -321,6 +326,26 @@ def run(loader, R, tier):
                             ", ".join(e for e, _ in major),
                             fmt(Counter(dict(major_sig)))))
     R.floor("function classes with at least two evaluator handlers", multi, 35)
+
+    # relationals: the comparison operator is the formula
+    RELDEF = {"Equality": "==", "Unequality": "!=", "LessThan": "<=",
+              "StrictLessThan": "<"}
+    nrel = 0
+    for name, op in sorted(RELDEF.items()):
+        X = "SymEngine::" + name
+        for ev, (sg, where) in sorted(sigs.get(X, {}).items()):
+            nrel += 1
+            ops = sorted(k[4:] for k in sg if k.startswith("cmp:"))
+            key = "%s:%s" % (name, ev)
+            R.instance("R12.2", key, sample={"class": name, "evaluator": ev,
+                                             "comparison": ops})
+            if ops != [op]:
+                R.violation(
+                    "R12.2", key, where,
+                    "%s evaluates %s with the comparison(s) %s; its "
+                    "definition is `lhs %s rhs`" % (ev, name, ops or "none",
+                                                   op))
+    R.floor("relational handlers compared with their definition", nrel, 8)
 
     # ---------------------------------------------------------------- R12.2
     ndef = 0
